@@ -1,5 +1,6 @@
 import Swat4.Lemmas.BackedStrict
 import Swat4.Lemmas.QueueRefine
+import Swat4.Model.UseCases.ProberRun
 /-!
 # C16: the prober batch — `PopMany`, then every popped probe handled to completion
 
@@ -210,27 +211,34 @@ theorem probe_run_backedEx (X : Addr → Goal → Prop) (prb : Probe) (outcome :
         exact unmark_failure _ _
 
 
-/-! ## the batch -/
+/-! ## the batch
 
-/-- the prober runner: handle every popped probe in turn, each to completion.  Mirrors `probeAll` of
-`Drv/UCRun.lean:73-75` (the same recursion over `UC.probe`; the rendered outcome strings the driver accumulates are
-dropped, and the network outcome may differ from probe to probe: `oc`). -/
-def probeEach (oc : Probe → Option ProbeResult) : List Probe → Prog Unit
-  | [] => pure ()
-  | p :: rest => (UC.probe p (oc p)).bind fun _ => probeEach oc rest
+The runner is the Model definition `UC.proberRunWith` / `UC.probeEach` (`Model/UseCases/ProberRun.lean`) — the program
+the driver runs for a `pop` client is its instance `UC.proberRun` (`Drv/UCRun.lean: USpec.prog (.pop n oc)`).  Earlier
+revisions of this file had their own copies (`Strict.probeEach`, `Strict.proberBatch`) "mirroring" the driver's
+`probeAll`; they are gone. -/
 
-/-- one prober batch: `PopMany(n)`, then the runner over the batch in some order.  Mirrors the `pop` client of
-`Drv/UCRun.lean:160-163` (`USpec.prog (.pop n oc)`); `order` stands for its `sortBatch` — any reordering. -/
-def proberBatch (n : Int) (oc : Probe → Option ProbeResult) (order : List Probe → List Probe) : Prog Unit :=
-  .call (.popMany n) fun r =>
-  match r with
-  | .error _ => pure ()
-  | .ok (ps, _) => probeEach oc (order ps)
+/-- the state after `UC.probeEach` of a non-empty batch: the first probe to completion, then the rest -/
+theorem probeEach_cons_state (oc : Probe → Option ProbeResult) (p : Probe) (rest : List Probe) (s : AbsState) (now : Int) :
+    ((UC.probeEach oc (p :: rest)).run s now).1 =
+      ((UC.probeEach oc rest).run ((UC.probe p (oc p)).run s now).1 now).1 := by
+  show (((UC.probe p (oc p)).bind fun e => (UC.probeEach oc rest).bind fun es => pure (e :: es)).run s now).1 = _
+  rw [Prog.run_bind, Prog.run_bind]
+  rfl
+
+/-- the state after a batch: `PopMany`, then `UC.probeEach` over the ordered batch -/
+theorem proberRunWith_state (n : Int) (oc : Probe → Option ProbeResult) (order : List Probe → List Probe)
+    (s : AbsState) (now : Int) :
+    ((UC.proberRunWith n oc order).run s now).1 =
+      ((UC.probeEach oc (order (s.popMany now n).2.1)).run (s.popMany now n).1 now).1 := by
+  simp only [UC.proberRunWith, Prog.run_call, Call.exec]
+  rw [Prog.run_bind]
+  rfl
 
 theorem probeEach_run (oc : Probe → Option ProbeResult) (X : Addr → Goal → Prop) (now : Int) :
     ∀ (ps : List Probe) (s : AbsState), BackedExS (fun a g => X a g ∨ Held ps a g) s → KeyedOk s →
       (∀ p ∈ ps, p.addr.PortOk) →
-      BackedExS X ((probeEach oc ps).run s now).1 ∧ KeyedOk ((probeEach oc ps).run s now).1 := by
+      BackedExS X ((UC.probeEach oc ps).run s now).1 ∧ KeyedOk ((UC.probeEach oc ps).run s now).1 := by
   intro ps
   induction ps with
   | nil =>
@@ -246,23 +254,20 @@ theorem probeEach_run (oc : Probe → Option ProbeResult) (X : Addr → Goal →
         · exact Or.inr ⟨ha.symm, hg.symm⟩
         · exact Or.inl (Or.inr ⟨q, hq', ha, hg⟩)
     obtain ⟨h1, h2⟩ := probe_run_backedEx (fun a g => X a g ∨ Held rest a g) p (oc p) s now hb' hk (hp p (by simp))
-    have hrun : (probeEach oc (p :: rest)).run s now =
-        (probeEach oc rest).run ((UC.probe p (oc p)).run s now).1 now := by
-      show ((UC.probe p (oc p)).bind fun _ => probeEach oc rest).run s now = _
-      rw [Prog.run_bind]
-    rw [hrun]
+    rw [probeEach_cons_state]
     exact ih _ h1 h2 (fun q hq => hp q (by simp [hq]))
 
 /-- **`pop_complete_backed`: a fault-free prober batch restores `BackedStrict`.**  From a `BackedStrict` store with
 well-keyed, valid rows, distinct queue ids and valid probe addresses: pop up to `n` probes (at any clock; expired ones
-are dropped), then handle every popped probe to completion, in any order, with any outcome per probe.  The store is
+are dropped), then handle every popped probe to completion, in any order, with any outcome per probe
+(`UC.proberRunWith`, the Model's prober runner).  The store is
 `BackedStrict` again (and well keyed): during the batch the only unbacked marks are those whose probe the prober
 holds, and each is discharged when its probe has been handled.  (For plain `Backed` the statement is false:
 `expiring_backing_orphaned`.) -/
 theorem pop_complete_backed (n : Int) (oc : Probe → Option ProbeResult) (order : List Probe → List Probe)
     (horder : ∀ ps p, p ∈ order ps ↔ p ∈ ps) (s : AbsState) (now : Int)
     (hb : BackedStrict s) (hk : KeyedOk s) (hinj : IdInj s.queue) (hq : ∀ q ∈ s.queue, q.probe.addr.PortOk) :
-    BackedStrict ((proberBatch n oc order).run s now).1 ∧ KeyedOk ((proberBatch n oc order).run s now).1 := by
+    BackedStrict ((UC.proberRunWith n oc order).run s now).1 ∧ KeyedOk ((UC.proberRunWith n oc order).run s now).1 := by
   have hpop := popMany_strict s now n hb hinj
   have hcov := (popMany_covers s now n hinj).2.2
   have hk' : KeyedOk (s.popMany now n).1 := fun k row h => hk k row (by rw [popMany_servers] at h; exact h)
@@ -273,10 +278,53 @@ theorem pop_complete_backed (n : Int) (oc : Probe → Option ProbeResult) (order
     obtain ⟨x, hx, rfl⟩ := hcov p ((horder _ p).1 hp)
     exact hq x hx
   have := probeEach_run oc (fun _ _ => False) now _ _ hheld hk' hports
-  have hrun : (proberBatch n oc order).run s now =
-      (probeEach oc (order (s.popMany now n).2.1)).run (s.popMany now n).1 now := by
-    simp only [proberBatch, Prog.run_call, Call.exec]
-  rw [hrun]
+  rw [proberRunWith_state]
   exact ⟨(backed_iff _).2 this.1, this.2⟩
+
+/-! ## the order the harness' runner uses is a reordering -/
+
+theorem span_loop_eq {α : Type} (f : α → Bool) : ∀ (l acc : List α),
+    List.span.loop f l acc = (acc.reverse ++ l.takeWhile f, l.dropWhile f)
+  | [], acc => by simp [List.span.loop]
+  | x :: xs, acc => by
+    cases hx : f x
+    · simp [List.span.loop, hx]
+    · simp [List.span.loop, hx, span_loop_eq f xs (x :: acc)]
+
+theorem span_eq {α : Type} (f : α → Bool) (l : List α) : l.span f = (l.takeWhile f, l.dropWhile f) := by
+  simp [List.span, span_loop_eq]
+
+theorem mem_span_insert {α : Type} (f : α → Bool) (acc : List α) (x p : α) :
+    p ∈ (match acc.span f with | (lo, hi) => lo ++ x :: hi) ↔ p = x ∨ p ∈ acc := by
+  rw [span_eq]
+  simp only [List.mem_append, List.mem_cons]
+  constructor
+  · rintro (h | rfl | h)
+    · exact Or.inr ((List.takeWhile_sublist f).subset h)
+    · exact Or.inl rfl
+    · exact Or.inr ((List.dropWhile_sublist f).subset h)
+  · rintro (rfl | h)
+    · exact Or.inr (Or.inl rfl)
+    · rw [← List.takeWhile_append_dropWhile (p := f) (l := acc)] at h
+      rcases List.mem_append.1 h with h | h
+      · exact Or.inl h
+      · exact Or.inr (Or.inr h)
+
+/-- `UC.sortBatch` (the insertion sort of `Model/UseCases/ProberRun.lean`) keeps exactly the elements of the batch: the
+hypothesis `horder` of `pop_complete_backed` holds for the runner the driver runs -/
+theorem mem_sortBatch (ps : List Probe) (p : Probe) : p ∈ UC.sortBatch ps ↔ p ∈ ps := by
+  induction ps with
+  | nil => simp [UC.sortBatch]
+  | cons x xs ih =>
+    have : UC.sortBatch (x :: xs) = _ := List.foldr_cons ..
+    rw [this, List.mem_cons, ← ih]
+    exact mem_span_insert _ _ x p
+
+/-- `pop_complete_backed` for **the runner the driver runs** (`UC.proberRun n outcome`: `sortBatch` order, one outcome
+for the whole batch) -/
+theorem proberRun_complete_backed (n : Int) (outcome : Option ProbeResult) (s : AbsState) (now : Int)
+    (hb : BackedStrict s) (hk : KeyedOk s) (hinj : IdInj s.queue) (hq : ∀ q ∈ s.queue, q.probe.addr.PortOk) :
+    BackedStrict ((UC.proberRun n outcome).run s now).1 ∧ KeyedOk ((UC.proberRun n outcome).run s now).1 :=
+  pop_complete_backed n (fun _ => outcome) UC.sortBatch mem_sortBatch s now hb hk hinj hq
 
 end Swat4.C16.Strict
